@@ -66,10 +66,14 @@ std::string showH(size_t h)
         if (*s.c_str()) o += " !c_str-of-null-not-empty";
         return o;
     }
+    std::string extra;
+    if (s.isEmpty() != (s.length() == 0)) extra += " !isEmpty-disagrees";
+    if ((const char*)s != s.c_str()) extra += " !conversion-disagrees";
+    if ((s == nullptr) || !(s != nullptr)) extra += " !nullptr-comparison";
     size_t grp = h;
     for (size_t g = 0; g < NH; ++g) if (H[g]->m_data == s.m_data) { grp = g; break; }
     return hex(s.c_str()) + " " + std::to_string(s.length()) + " g" + std::to_string(grp) + " "
-        + std::to_string(s.m_data->refcount) + " " + std::to_string(s.m_data->alloced);
+        + std::to_string(s.m_data->refcount) + " " + std::to_string(s.m_data->alloced) + extra;
 }
 
 std::string obs()
@@ -130,11 +134,11 @@ int main()
         } else if (op == "app" && t.size() == 3 && nat(t[1], h, NH - 1) && nat(t[2], g, NH - 1)) {
             *H[h] += *H[g];
         } else if (op == "apps" && t.size() == 3 && nat(t[1], h, NH - 1) && unhex(t[2], txt)) {
-            H[h]->append(txt.c_str());
+            if (txt.size() % 2) *H[h] += txt.c_str(); else H[h]->append(txt.c_str());
         } else if (op == "appc" && t.size() == 3 && nat(t[1], h, NH - 1) && nat(t[2], c, 255) && c != 0) {
-            H[h]->append((char)c);
+            if (c % 2) *H[h] += (char)c; else H[h]->append((char)c);
         } else if (op == "plus" && t.size() == 4 && nat(t[1], h, NH - 1) && nat(t[2], a, NH - 1) && nat(t[3], b, NH - 1)) {
-            *H[h] = *H[a] + *H[b];
+            if ((a + b) % 2) *H[h] = *H[a] + H[b]->c_str(); else *H[h] = *H[a] + *H[b];
         } else if (op == "setc" && t.size() == 4 && nat(t[1], h, NH - 1) && nat(t[2], n, BIG) && nat(t[3], c, 255) && c != 0) {
             if (!H[h]->m_data) ub = true; else (*H[h])[n] = (char)c;
         } else if (op == "getc" && t.size() == 3 && nat(t[1], h, NH - 1) && nat(t[2], n, BIG)) {
